@@ -24,6 +24,9 @@ EPS = Fraction(1, 2 ** 45)
 
 
 def mk(LPoly, coefs, dmin):
+    # integer-valued vectors are handed over as Python ints (NumPy integer arrays inside the class)
+    if coefs and all(float(c).is_integer() and abs(c) < 2 ** 20 for c in coefs) and (hash(tuple(coefs)) % 2 == 0):
+        return LPoly([int(c) for c in coefs], dmin)
     return LPoly(list(coefs), dmin)
 
 
@@ -53,6 +56,7 @@ def one_case(ctx, LP, op, A, B, extra):
     (ac, ad), (bc, bd) = A, B
     a, b = mk(LPoly, ac, ad), mk(LPoly, bc, bd)
     ea, eb = enc(ac, ad), enc(bc, bd)
+    before = (np.asarray(a.coefs).tobytes(), a.dmin, np.asarray(b.coefs).tobytes(), b.dmin)
     scale = (l1(ac) + 1) * (l1(bc) + 1)
     tol = EPS * scale
     kind = "lp"
@@ -107,6 +111,10 @@ def one_case(ctx, LP, op, A, B, extra):
     else:
         raise core.InfraError("unknown op " + op)
 
+    if op != "round" and (np.asarray(a.coefs).tobytes(), a.dmin, np.asarray(b.coefs).tobytes(), b.dmin) != before:
+        ctx.violation("%s:operand-mutated" % op, "LPoly.%s modifies one of its operands" % op,
+                      {"op": op, "A": {"coefs": ac, "dmin": ad}, "B": {"coefs": bc, "dmin": bd}, "extra": {k: str(v) for k, v in extra.items()}})
+        return
     zero_involved = (len(ac) == 0) or (op in ("mul", "add", "sub") and len(bc) == 0)
     shape = "%s:%s" % (op, "zero" if zero_involved else "nonzero")
     ctx.count("op:" + op)
